@@ -96,7 +96,7 @@ def cms_case(draw):
             if items:
                 w = min(w, (LIMIT - total) // len(items))
             # the batch is any iterable of items: a list, a tuple, or a one-shot iterator / generator (a streaming reader)
-            ops.append(['batch', items, w, draw(st.sampled_from(['list', 'list', 'tuple', 'iter', 'gen']))])
+            ops.append(['batch', items, w, draw(st.sampled_from(['list', 'list', 'tuple', 'iter', 'gen', 'ndarray']))])
             total += w * len(items)
     return {'depth': depth, 'width': width, 'seed': seed, 'ops': ops}
 
@@ -172,12 +172,22 @@ def oracle_cms(case, rec):
             continue
         if op[0] == 'add':
             items = [op[1]]
-            sk.add(op[1], op[2])
+            # the argument is a temporary built in the call expression (cms.add(field.strip()), cms.add(int(tok))): an equal value in
+            # a fresh object that dies when the call returns
+            if k % 2:
+                sk.add((op[1] + 'z')[:-1] if isinstance(op[1], str) else int(str(op[1])), op[2])
+            else:
+                sk.add(op[1], op[2])
         else:
             items = list(op[1])
             how = op[3] if len(op) > 3 else 'list'
-            arg = items if how == 'list' else tuple(items) if how == 'tuple' else iter(items) if how == 'iter' else (x for x in items)
+            if how == 'ndarray' and not (items and all(isinstance(x, int) for x in items)):
+                how = 'list'          # a numpy batch is an int64 column (e.g. a frame column's .values); mixed / str batches stay lists
+            arg = items if how == 'list' else tuple(items) if how == 'tuple' else iter(items) if how == 'iter' else \
+                np.array(items, dtype=np.int64) if how == 'ndarray' else (x for x in items)
             sk.batch_add(arg, op[2])
+            if how == 'ndarray':
+                rec.cls('batch-from-int64-array')
             if how in ('iter', 'gen'):
                 rec.cls('batch-from-one-shot-iterator')
         w = op[2]
